@@ -96,7 +96,7 @@ func watchdog(dir string) {
 			lastChange = time.Now()
 			continue
 		}
-		stalled := time.Since(lastChange) > 25*time.Second
+		stalled := time.Since(lastChange) > watchdogScale*25*time.Second
 		if !stalled && time.Since(lastChange) > 4*time.Second {
 			// a computation that also allocates without bound must not eat the machine first
 			var ms runtime.MemStats
